@@ -787,4 +787,592 @@ theorem imgCount_noimg (l : List Msg) (h : ∀ m ∈ l, m.images = []) : imgCoun
     simp [this]
 
 
+
+/-! ## Round 7: order of the rendered contents, totality, closed forms -/
+
+/-- the byte strings `cs` occur in `b` one after the other, without overlap, in this order -/
+def InOrder : List Bytes → Bytes → Prop
+  | [], _ => True
+  | c :: cs, b => ∃ x y, b = x ++ c ++ y ∧ InOrder cs y
+
+theorem InOrder.left {cs : List Bytes} {b : Bytes} (x : Bytes) (h : InOrder cs b) : InOrder cs (x ++ b) := by
+  cases cs with
+  | nil => trivial
+  | cons c cs =>
+    obtain ⟨x', y, hb, hy⟩ := h
+    exact ⟨x ++ x', y, by simp [hb], hy⟩
+
+theorem InOrder.right : ∀ {cs : List Bytes} {b : Bytes} (y : Bytes), InOrder cs b → InOrder cs (b ++ y) := by
+  intro cs
+  induction cs with
+  | nil => intro b y _; trivial
+  | cons c cs ih =>
+    intro b y h
+    obtain ⟨x', y', hb, hy⟩ := h
+    exact ⟨x', y' ++ y, by simp [hb], ih y hy⟩
+
+theorem InOrder.append : ∀ {as bs : List Bytes} {a b : Bytes}, InOrder as a → InOrder bs b →
+    InOrder (as ++ bs) (a ++ b) := by
+  intro as
+  induction as with
+  | nil => intro bs a b _ hb; exact hb.left a
+  | cons c as ih =>
+    intro bs a b ha hb
+    obtain ⟨x, y, he, hy⟩ := ha
+    exact ⟨x, y ++ b, by simp [he], ih hy hb⟩
+
+theorem InOrder.self (c : Bytes) : InOrder [c] c := ⟨[], [], by simp, trivial⟩
+
+theorem InOrder.infix_of_mem : ∀ {cs : List Bytes} {b : Bytes}, InOrder cs b → ∀ c ∈ cs, c <:+: b := by
+  intro cs
+  induction cs with
+  | nil => intro b _ c hc; simp at hc
+  | cons a cs ih =>
+    intro b h c hc
+    obtain ⟨x, y, he, hy⟩ := h
+    rcases List.mem_cons.mp hc with h1 | h1
+    · subst h1; subst he; exact ⟨x, y, rfl⟩
+    · subst he; exact inf_left _ (ih hy c h1)
+
+/-- the occurrences do not overlap: together they are not longer than the string -/
+theorem InOrder.length_le : ∀ {cs : List Bytes} {b : Bytes}, InOrder cs b → (cs.map List.length).sum ≤ b.length := by
+  intro cs
+  induction cs with
+  | nil => intro b _; simp
+  | cons c cs ih =>
+    intro b h
+    obtain ⟨x, y, he, hy⟩ := h
+    have := ih hy
+    subst he
+    simp only [List.map_cons, List.sum_cons, List.length_append]
+    omega
+
+/-- replace one of the strings by strings that occur in it, in order -/
+theorem InOrder.refine : ∀ {as : List Bytes} {c : Bytes} {cs ds : List Bytes} {b : Bytes},
+    InOrder (as ++ c :: cs) b → InOrder ds c → InOrder (as ++ ds ++ cs) b := by
+  intro as
+  induction as with
+  | nil =>
+    intro c cs ds b h hd
+    obtain ⟨x, y, he, hy⟩ := h
+    subst he
+    have := (InOrder.append hd hy).left x
+    simpa using this
+  | cons a as ih =>
+    intro c cs ds b h hd
+    obtain ⟨x, y, he, hy⟩ := h
+    exact ⟨x, y, he, by simpa using ih hy hd⟩
+
+/-- `ds` can replace `cs`: wherever `cs` occur in order, so do `ds` -/
+def Refines (ds cs : List Bytes) : Prop := ∀ b, InOrder cs b → InOrder ds b
+
+theorem Refines.prefix {ds cs : List Bytes} (p : List Bytes) (h : Refines ds cs) : Refines (p ++ ds) (p ++ cs) := by
+  induction p with
+  | nil => exact h
+  | cons a p ih =>
+    intro b hb
+    obtain ⟨x, y, he, hy⟩ := hb
+    exact ⟨x, y, he, ih y hy⟩
+
+/-- a content as a list: empty contents are not tracked (they occur anywhere) -/
+def one (c : Bytes) : List Bytes := if c.isEmpty then [] else [c]
+
+theorem InOrder.one (c : Bytes) : InOrder (one c) c := by
+  unfold Prompt.one; split
+  · trivial
+  · exact InOrder.self c
+
+/-- the contents of the messages whose role the template path looks at, in order -/
+def contentsOf (keep : Role → Bool) : List RMsg → List Bytes
+  | [] => []
+  | (r, c) :: l => (if keep r then one c else []) ++ contentsOf keep l
+
+theorem sep2_join_inorder (c c' : Bytes) : InOrder (one c ++ one c') (c ++ sep2 ++ c') := by
+  have h1 : InOrder (one c) (c ++ sep2) := (InOrder.one c).right sep2
+  exact InOrder.append h1 (InOrder.one c')
+
+/-- **collate preserves the order of the contents**: wherever the contents of the merged messages
+    occur in order, so do the contents of the original messages -/
+theorem collate_refines (keep : Role → Bool) : ∀ msgs : List RMsg,
+    Refines (contentsOf keep msgs) (contentsOf keep (collateMsgs msgs)) := by
+  intro msgs
+  induction msgs with
+  | nil => intro b h; exact h
+  | cons a rest ih =>
+    obtain ⟨r, c⟩ := a
+    simp only [collateMsgs]
+    split
+    · rename_i r' c' tl heq
+      rw [heq] at ih
+      split
+      · rename_i hrr
+        subst hrr
+        simp only [contentsOf] at ih ⊢
+        cases hk : keep r with
+        | false =>
+          simp only [hk, Bool.false_eq_true, if_false, List.nil_append] at ih ⊢
+          exact ih
+        | true =>
+          simp only [hk, if_true] at ih ⊢
+          intro b hb
+          have hne : (c ++ sep2 ++ c').isEmpty = false := by simp [sep2]
+          simp only [one, hne, Bool.false_eq_true, if_false] at hb
+          have h2 : InOrder ([] ++ (Prompt.one c ++ Prompt.one c') ++ contentsOf keep tl) b :=
+            InOrder.refine (as := []) hb (sep2_join_inorder c c')
+          have h3 : InOrder (Prompt.one c ++ (Prompt.one c' ++ contentsOf keep tl)) b := by
+            simpa using h2
+          exact (Refines.prefix (Prompt.one c) ih) b h3
+      · simp only [contentsOf]
+        exact Refines.prefix _ ih
+    · rename_i heq
+      rw [heq] at ih
+      simp only [contentsOf]
+      exact Refines.prefix _ ih
+
+
+/-! ### the legacy loop renders the turns in the order of the conversation -/
+
+def legacyRole : Role → Bool
+  | .system => true | .user => true | .assistant => true | _ => false
+
+/-- the template renders the three fields of a turn in the order system, prompt, response -/
+def RendersOrdered (t : List Node) : Prop :=
+  ∀ s p r, ∃ b, execList (legacyRoot s p r) t none = .ok b ∧ InOrder [s, p, r] b
+
+/-- invariant of the join-repaired loop: `seen` (the non-empty contents consumed so far, in the
+    order of the conversation) = what has been rendered ++ pending system ++ pending prompt ++
+    pending response, each part in order inside its buffer -/
+structure OrdInv (st : Legacy) (seen : List Bytes) : Prop where
+  ex : ∃ o done ps pp pr, st.out = .ok o ∧ InOrder done o ∧ InOrder ps st.sys ∧ InOrder pp st.prompt ∧
+    InOrder pr st.resp ∧ seen = done ++ ps ++ pp ++ pr ∧
+    (st.sys = [] → ps = []) ∧ (st.prompt = [] → pp = []) ∧ (st.resp = [] → pr = [])
+
+theorem joinSlot_eq_nil {a c : Bytes} (h : joinSlot a c = []) : a = [] ∧ c = [] := by
+  unfold joinSlot at h
+  split at h
+  · rename_i he
+    exact ⟨by cases a <;> simp_all, h⟩
+  · simp [sep2] at h
+
+theorem one_nil_of_nil {c : Bytes} (h : c = []) : one c = [] := by subst h; rfl
+
+theorem joinSlot_inorder {ps : List Bytes} {a : Bytes} (c : Bytes) (h : InOrder ps a) (hnil : a = [] → ps = []) :
+    InOrder (ps ++ one c) (joinSlot a c) := by
+  unfold joinSlot
+  split
+  · rename_i he
+    have ha : a = [] := by cases a <;> simp_all
+    rw [hnil ha]
+    simpa using InOrder.one c
+  · exact InOrder.append (h.right sep2) (InOrder.one c)
+
+theorem turn_inorder {s p r b : Bytes} {ps pp pr : List Bytes} (hord : InOrder [s, p, r] b)
+    (hs : InOrder ps s) (hp : InOrder pp p) (hre : InOrder pr r) : InOrder (ps ++ pp ++ pr) b := by
+  have h1 : InOrder ([] ++ ps ++ [p, r]) b := InOrder.refine (as := []) hord hs
+  have h2 : InOrder (ps ++ pp ++ [r]) b := by
+    have := InOrder.refine (as := ps) (c := p) (cs := [r]) (ds := pp) (by simpa using h1) hp
+    simpa using this
+  have := InOrder.refine (as := ps ++ pp) (c := r) (cs := []) (ds := pr) (by simpa using h2) hre
+  simpa using this
+
+theorem flush_ord {t : List Node} (hr : RendersOrdered t) {st : Legacy} {seen : List Bytes}
+    (h : OrdInv st seen) : OrdInv (legacyFlush t st) seen := by
+  obtain ⟨o, done, ps, pp, pr, ho, hd, hs, hp, hre, hseen, _, _, _⟩ := h.ex
+  obtain ⟨b, hb, hord⟩ := hr st.sys st.prompt st.resp
+  have h3 : InOrder (ps ++ pp ++ pr) b := turn_inorder hord hs hp hre
+  refine ⟨o ++ b, done ++ ps ++ pp ++ pr, [], [], [], ?_, ?_, trivial, trivial, trivial, ?_, fun _ => rfl, fun _ => rfl, fun _ => rfl⟩
+  · simp [legacyFlush, ho, hb, XOut.append]
+  · have := InOrder.append hd h3
+    simpa [List.append_assoc] using this
+  · simp [hseen]
+
+theorem maybeFlush_ord {t : List Node} (hr : RendersOrdered t) {st : Legacy} {seen : List Bytes}
+    (h : OrdInv st seen) (b : Bool) : OrdInv (if b then legacyFlush t st else st) seen := by
+  cases b with
+  | false => exact h
+  | true => exact flush_ord hr h
+
+theorem isEmpty_false_ne {b : Bytes} (h : (!b.isEmpty) = false) : b = [] := by
+  cases b <;> simp_all
+
+/-- one step of the join-repaired loop -/
+theorem step_ord {t : List Node} (hr : RendersOrdered t) (st : Legacy) (seen : List Bytes) (m : RMsg)
+    (h : OrdInv st seen) :
+    OrdInv (legacyStep 2 t st m) (seen ++ (if legacyRole m.1 then one m.2 else [])) := by
+  obtain ⟨r, c⟩ := m
+  cases r with
+  | system =>
+    rw [legacyStep_join_system]
+    simp only [legacyRole, if_true]
+    -- after the flush decision the prompt and response buffers are empty
+    have hst : ∃ st', st' = (if (!st.prompt.isEmpty || !st.resp.isEmpty) then legacyFlush t st else st) ∧
+        OrdInv st' seen ∧ st'.prompt = [] ∧ st'.resp = [] := by
+      refine ⟨_, rfl, maybeFlush_ord hr h _, ?_, ?_⟩
+      · cases hc : (!st.prompt.isEmpty || !st.resp.isEmpty) with
+        | true => simp [legacyFlush]
+        | false =>
+          simp only [Bool.or_eq_false_iff] at hc
+          simpa using isEmpty_false_ne hc.1
+      · cases hc : (!st.prompt.isEmpty || !st.resp.isEmpty) with
+        | true => simp [legacyFlush]
+        | false =>
+          simp only [Bool.or_eq_false_iff] at hc
+          simpa using isEmpty_false_ne hc.2
+    obtain ⟨st', hst', hinv, hp0, hr0⟩ := hst
+    rw [← hst']
+    obtain ⟨o, done, ps, pp, pr, ho, hd, hs, hp, hre, hseen, n1, n2, n3⟩ := hinv.ex
+    have hpp := n2 hp0
+    have hpr := n3 hr0
+    subst hpp; subst hpr
+    refine ⟨o, done, ps ++ one c, [], [], ho, hd, joinSlot_inorder c hs n1, trivial, trivial, ?_, ?_, fun _ => rfl, fun _ => rfl⟩
+    · simp [hseen]
+    · intro hnil
+      obtain ⟨ha, hc⟩ := joinSlot_eq_nil hnil
+      simp [n1 ha, one_nil_of_nil hc]
+  | user =>
+    rw [legacyStep_join_user]
+    simp only [legacyRole, if_true]
+    have hst : ∃ st', st' = (if (!st.resp.isEmpty) then legacyFlush t st else st) ∧
+        OrdInv st' seen ∧ st'.resp = [] := by
+      refine ⟨_, rfl, maybeFlush_ord hr h _, ?_⟩
+      cases hc : (!st.resp.isEmpty) with
+      | true => simp [legacyFlush]
+      | false => simpa using isEmpty_false_ne hc
+    obtain ⟨st', hst', hinv, hr0⟩ := hst
+    rw [← hst']
+    obtain ⟨o, done, ps, pp, pr, ho, hd, hs, hp, hre, hseen, n1, n2, n3⟩ := hinv.ex
+    have hpr := n3 hr0
+    subst hpr
+    refine ⟨o, done, ps, pp ++ one c, [], ho, hd, hs, joinSlot_inorder c hp n2, trivial, ?_, n1, ?_, fun _ => rfl⟩
+    · simp [hseen]
+    · intro hnil
+      obtain ⟨ha, hc⟩ := joinSlot_eq_nil hnil
+      simp [n2 ha, one_nil_of_nil hc]
+  | assistant =>
+    rw [legacyStep_join_assistant]
+    simp only [legacyRole, if_true]
+    obtain ⟨o, done, ps, pp, pr, ho, hd, hs, hp, hre, hseen, n1, n2, n3⟩ := h.ex
+    refine ⟨o, done, ps, pp, pr ++ one c, ho, hd, hs, hp, joinSlot_inorder c hre n3, ?_, n1, n2, ?_⟩
+    · simp [hseen]
+    · intro hnil
+      obtain ⟨ha, hc⟩ := joinSlot_eq_nil hnil
+      simp [n3 ha, one_nil_of_nil hc]
+  | tool => simpa [legacyStep, legacyRole] using h
+  | other => simpa [legacyStep, legacyRole] using h
+
+theorem fold_ord {t : List Node} (hr : RendersOrdered t) : ∀ (l : List RMsg) (st : Legacy) (seen : List Bytes),
+    OrdInv st seen → OrdInv (l.foldl (legacyStep 2 t) st) (seen ++ contentsOf legacyRole l) := by
+  intro l
+  induction l with
+  | nil => intro st seen h; simpa [contentsOf] using h
+  | cons a l ih =>
+    intro st seen h
+    obtain ⟨r, c⟩ := a
+    have := ih _ _ (step_ord hr st seen (r, c) h)
+    simpa [contentsOf, List.append_assoc] using this
+
+/-- **The join-repaired legacy path renders the conversation in its order**: for a legacy template
+    that renders system, prompt, response in this order (also after the `.Response` cut), the
+    non-empty contents of the system / user / assistant messages occur in the prompt one after the
+    other, without overlap, in the order of the conversation. -/
+theorem legacy_join_in_order (t t' : List Node) (efix cut : Bool)
+    (hmsg : nodesMention Fld.messages t = false) (hcut : cutList efix t false = .ok cut t')
+    (hr : RendersOrdered t) (hr' : RendersOrdered t') (msgs : List RMsg) (tools : ToolsV := {}) :
+    ∃ b, execute ⟨2, efix⟩ t msgs tools = .ok b ∧ InOrder (contentsOf legacyRole msgs) b := by
+  have h0 : OrdInv ⟨[], [], [], .ok []⟩ [] :=
+    ⟨[], [], [], [], [], rfl, trivial, trivial, trivial, trivial, rfl, fun _ => rfl, fun _ => rfl, fun _ => rfl⟩
+  have hf := fold_ord hr (collateMsgs msgs) _ _ h0
+  obtain ⟨o, done, ps, pp, pr, ho, hd, hs, hp, hre, hseen, _, _, _⟩ := hf.ex
+  obtain ⟨b, hb, hord⟩ := hr' (List.foldl (legacyStep 2 t) ⟨[], [], [], .ok []⟩ (collateMsgs msgs)).sys
+    (List.foldl (legacyStep 2 t) ⟨[], [], [], .ok []⟩ (collateMsgs msgs)).prompt
+    (List.foldl (legacyStep 2 t) ⟨[], [], [], .ok []⟩ (collateMsgs msgs)).resp
+  have h3 : InOrder (ps ++ pp ++ pr) b := turn_inorder hord hs hp hre
+  refine ⟨o ++ b, ?_, ?_⟩
+  · simp only [execute, collate, hmsg, Bool.false_eq_true, if_false, ho, hcut, hb, XOut.append]
+  · apply collate_refines legacyRole msgs
+    have : contentsOf legacyRole (collateMsgs msgs) = done ++ (ps ++ pp ++ pr) := by
+      simpa [List.append_assoc] using hseen
+    rw [this]
+    exact InOrder.append hd h3
+
+theorem InOrder.nil_head {cs : List Bytes} {b : Bytes} (h : InOrder cs b) : InOrder ([] :: cs) b :=
+  ⟨[], b, by simp, h⟩
+theorem InOrder.here {c : Bytes} {cs : List Bytes} {y : Bytes} (h : InOrder cs y) : InOrder (c :: cs) (c ++ y) :=
+  ⟨[], y, by simp, h⟩
+theorem InOrder.skip {cs : List Bytes} {y : Bytes} (a : UInt8) (h : InOrder cs y) : InOrder cs (a :: y) :=
+  h.left [a]
+theorem InOrder.drop_nil {cs : List Bytes} {b : Bytes} (h : InOrder ([] :: cs) b) : InOrder cs b := by
+  obtain ⟨x, y, he, hy⟩ := h
+  subst he
+  simpa using hy.left x
+theorem InOrder.one_of_single {c b : Bytes} (h : InOrder [c] b) : InOrder (Prompt.one c) b := by
+  unfold Prompt.one; split
+  · trivial
+  · exact h
+
+macro "ord_solve" : tactic => `(tactic|
+  repeat (first
+    | exact trivial
+    | exact InOrder.self _
+    | apply InOrder.nil_head
+    | apply InOrder.here
+    | apply InOrder.skip))
+
+/-- folding message bodies in order -/
+theorem fold_bodies_ord (keep : Role → Bool) (body : Option RMsg → XOut) :
+    ∀ (l : List RMsg) (acc : Bytes) (accs : List Bytes), InOrder accs acc →
+    (∀ m ∈ l, ∃ b, body (some m) = XOut.ok b ∧ InOrder (if keep m.1 then one m.2 else []) b) →
+    ∃ o, l.foldl (fun (a : XOut) m => a.append (body (some m))) (XOut.ok acc) = XOut.ok o ∧
+      InOrder (accs ++ contentsOf keep l) o := by
+  intro l
+  induction l with
+  | nil => intro acc accs h _; exact ⟨acc, rfl, by simpa [contentsOf] using h⟩
+  | cons a l ih =>
+    intro acc accs hacc hall
+    obtain ⟨b, hb, hord⟩ := hall a (by simp)
+    obtain ⟨o, ho, hres⟩ := ih (acc ++ b) (accs ++ (if keep a.1 then one a.2 else [])) (InOrder.append hacc hord)
+      (fun m hm => hall m (by simp [hm]))
+    refine ⟨o, ?_, ?_⟩
+    · simp only [List.foldl_cons, hb, XOut.append]; exact ho
+    · obtain ⟨r, c⟩ := a
+      simpa [contentsOf, List.append_assoc] using hres
+
+
+def isSys : Role → Bool
+  | .system => true | _ => false
+
+theorem joinSep_inorder : ∀ (l : List Bytes), InOrder (l.flatMap one) (joinSep sep2 l) := by
+  intro l
+  induction l with
+  | nil => trivial
+  | cons a l ih =>
+    cases l with
+    | nil => simpa [joinSep] using InOrder.one a
+    | cons b l =>
+      simp only [joinSep, List.flatMap_cons] at ih ⊢
+      exact InOrder.append ((InOrder.one a).right sep2) ih
+
+theorem contentsOf_isSys (msgs : List RMsg) :
+    contentsOf isSys msgs = ((msgs.filter (fun m => m.1 = Role.system)).map (·.2)).flatMap one := by
+  induction msgs with
+  | nil => rfl
+  | cons a l ih =>
+    obtain ⟨r, c⟩ := a
+    cases r <;> simp [contentsOf, isSys, List.filter_cons, ih]
+
+/-- **the `.System` string of a messages-style template holds the system messages in order** -/
+theorem collate_system_inorder (msgs : List RMsg) : InOrder (contentsOf isSys msgs) (collate msgs).1 := by
+  rw [contentsOf_isSys]
+  exact joinSep_inorder _
+
+
+/-! ### the cut and success in closed form -/
+
+/-- specification of the cut: starting from the latest message (`k = L-1`), extend the run by one
+    older message as long as the extended run fits -/
+def specCut (fitsAt : Nat → Bool) : Nat → Nat
+  | 0 => 0
+  | k+1 => if fitsAt k then specCut fitsAt k else k+1
+
+theorem specCut_unique (f : Nat → Bool) : ∀ (k n : Nat), n ≤ k → (∀ j, n ≤ j → j < k → f j = true) →
+    (n = 0 ∨ f (n - 1) = false) → specCut f k = n := by
+  intro k
+  induction k with
+  | zero => intro n h _ _; simp [specCut]; omega
+  | succ k ih =>
+    intro n hle hall hstop
+    simp only [specCut]
+    by_cases hn : n = k + 1
+    · subst hn
+      rcases hstop with h | h
+      · omega
+      · simp at h; simp [h]
+    · have hk : f k = true := hall k (by omega) (by omega)
+      simp only [hk, if_true]
+      exact ih n (by omega) (fun j h1 h2 => hall j h1 (by omega)) hstop
+
+theorem imagesAt_cases (msgs : List Msg) (i : Nat) :
+    imagesAt msgs i = [] ∨ ∃ m ∈ msgs, imagesAt msgs i = m.images := by
+  unfold imagesAt
+  split
+  · rename_i m rest heq
+    right
+    refine ⟨m, ?_, rfl⟩
+    have : m ∈ msgs.drop i := by rw [heq]; simp
+    exact List.mem_of_mem_drop this
+  · left; rfl
+
+/-- when no measurement fails and (for mllama) no message has more than one image the loop ends normally -/
+theorem scan_total (cfg : Cfg) (cost : Nat → Nat) (bad : Nat → Bool) (msgs : List Msg)
+    (hbad : ∀ i, bad i = false)
+    (himg : cfg.mllama = true → ∀ m ∈ msgs, m.images.length ≤ 1) :
+    ∀ (k n : Nat) (s : Option Nat) (q : Nat), ∃ n' s' q', scan cfg cost bad msgs k n s q = .done n' s' q' := by
+  intro k
+  induction k with
+  | zero => intro n s q; exact ⟨_, _, _, rfl⟩
+  | succ k ih =>
+    intro n s q
+    unfold scan
+    have h1 : (cfg.mllama && decide (1 < (imagesAt msgs k).length)) = false := by
+      cases hm : cfg.mllama with
+      | false => rfl
+      | true =>
+        simp only [Bool.true_and, decide_eq_false_iff_not]
+        rcases imagesAt_cases msgs k with h | ⟨m, hm', h⟩
+        · rw [h]; simp
+        · rw [h]; have := himg hm m hm'; omega
+    simp only [h1, Bool.false_eq_true, if_false, hbad k]
+    split
+    · exact ih _ _ _
+    · split
+      · exact ih _ _ _
+      · exact ⟨_, _, _, rfl⟩
+
+def imgOk (cfg : Cfg) (im : Img) : Prop := cfg.mllama = false ∨ cfg.proj < 2 ∨ im.ok = true
+
+theorem stepImg_total (cfg : Cfg) (st : RW) (im : Img) (h : imgOk cfg im) : ∃ st', stepImg cfg st im = .ok st' := by
+  unfold stepImg imgData
+  rcases h with h | h | h
+  · simp only [h, Bool.false_eq_true, if_false]
+    split <;> exact ⟨_, rfl⟩
+  · cases hm : cfg.mllama with
+    | false => simp only [Bool.false_eq_true, if_false]; split <;> exact ⟨_, rfl⟩
+    | true => simp only [if_true, h]; split <;> exact ⟨_, rfl⟩
+  · cases hm : cfg.mllama with
+    | false => simp only [Bool.false_eq_true, if_false]; split <;> exact ⟨_, rfl⟩
+    | true =>
+      simp only [if_true, h]
+      by_cases hp : cfg.proj < 2
+      · simp only [hp, if_true]; split <;> exact ⟨_, rfl⟩
+      · simp only [hp, if_false]; split <;> exact ⟨_, rfl⟩
+
+theorem foldImgs_total (cfg : Cfg) : ∀ (ims : List Img) (st : RW), (∀ im ∈ ims, imgOk cfg im) →
+    ∃ st', foldImgs cfg ims st = .ok st' := by
+  intro ims
+  induction ims with
+  | nil => intro st _; exact ⟨st, rfl⟩
+  | cons im ims ih =>
+    intro st h
+    obtain ⟨st1, h1⟩ := stepImg_total cfg st im (h im (by simp))
+    obtain ⟨st2, h2⟩ := ih st1 (fun x hx => h x (by simp [hx]))
+    exact ⟨st2, by simp only [foldImgs, h1, h2]⟩
+
+theorem rewriteAll_total (cfg : Cfg) : ∀ (ms : List Msg) (acc : List ImgOut),
+    (∀ m ∈ ms, ∀ im ∈ m.images, imgOk cfg im) → ∃ r, rewriteAll cfg ms acc = .ok r := by
+  intro ms
+  induction ms with
+  | nil => intro acc _; exact ⟨_, rfl⟩
+  | cons m ms ih =>
+    intro acc h
+    obtain ⟨st, hst⟩ := foldImgs_total cfg m.images ⟨[], false, m.content, acc⟩ (h m (by simp))
+    have h1 : rewriteMsg cfg m acc = .ok ({ m with content := assemble st }, st.acc) := by
+      simp only [rewriteMsg, hst]
+    obtain ⟨⟨ms', acc'⟩, h2⟩ := ih st.acc (fun x hx => h x (by simp [hx]))
+    exact ⟨({ m with content := assemble st } :: ms', acc'), by simp only [rewriteAll, h1, h2]⟩
+
+
+/-! ### the returned images in closed form -/
+
+/-- specification of the returned image list: the images of the retained messages, numbered from `k`,
+    preprocessed iff the model is an mllama model with a projector -/
+def specImagesFrom (cfg : Cfg) : Nat → List Img → List ImgOut
+  | _, [] => []
+  | k, im :: ims => ⟨k, im.src, cfg.mllama && decide (2 ≤ cfg.proj)⟩ :: specImagesFrom cfg (k+1) ims
+
+theorem specImagesFrom_append (cfg : Cfg) : ∀ (a b : List Img) (k : Nat),
+    specImagesFrom cfg k (a ++ b) = specImagesFrom cfg k a ++ specImagesFrom cfg (k + a.length) b := by
+  intro a
+  induction a with
+  | nil => intro b k; simp [specImagesFrom]
+  | cons x a ih =>
+    intro b k
+    simp only [List.cons_append, specImagesFrom, ih, List.length_cons]
+    have : k + 1 + a.length = k + (a.length + 1) := by omega
+    rw [this]
+
+theorem imgData_spec (cfg : Cfg) (id : Nat) (im : Img) (mm mm' : Bool) (o : ImgOut)
+    (h : imgData cfg id im mm = .ok (o, mm')) :
+    o = ⟨id, im.src, cfg.mllama && decide (2 ≤ cfg.proj)⟩ := by
+  unfold imgData at h
+  split at h
+  · rename_i hm
+    split at h
+    · rename_i hp
+      injection h with h; injection h with h1 h2; subst h1
+      have : ¬ (2 ≤ cfg.proj) := by omega
+      simp [hm, this]
+    · rename_i hp
+      split at h
+      · injection h with h; injection h with h1 h2; subst h1
+        have : 2 ≤ cfg.proj := by omega
+        simp [hm, this]
+      · cases h
+  · rename_i hm
+    injection h with h; injection h with h1 h2; subst h1
+    simp [hm]
+
+theorem stepImg_spec (cfg : Cfg) (st st' : RW) (im : Img) (h : stepImg cfg st im = .ok st') :
+    st'.acc = st.acc ++ specImagesFrom cfg st.acc.length [im] := by
+  unfold stepImg at h
+  split at h
+  · cases h
+  · rename_i o mm hr
+    have ho := imgData_spec cfg _ im _ _ o hr
+    split at h <;> (injection h with h; subst h; simp [specImagesFrom, ho])
+
+theorem foldImgs_spec (cfg : Cfg) : ∀ (ims : List Img) (st st' : RW),
+    foldImgs cfg ims st = .ok st' → st'.acc = st.acc ++ specImagesFrom cfg st.acc.length ims := by
+  intro ims
+  induction ims with
+  | nil => intro st st' h; simp only [foldImgs] at h; injection h with h; subst h; simp [specImagesFrom]
+  | cons im ims ih =>
+    intro st st' h
+    simp only [foldImgs] at h
+    split at h
+    · cases h
+    · rename_i st1 h1
+      have e1 := stepImg_spec cfg st st1 im h1
+      have e2 := ih st1 st' h
+      rw [e2, e1]
+      simp [specImagesFrom]
+
+theorem rewriteAll_spec (cfg : Cfg) : ∀ (ms ms' : List Msg) (acc acc' : List ImgOut),
+    rewriteAll cfg ms acc = .ok (ms', acc') →
+    acc' = acc ++ specImagesFrom cfg acc.length (ms.flatMap (·.images)) := by
+  intro ms
+  induction ms with
+  | nil =>
+    intro ms' acc acc' h
+    simp only [rewriteAll] at h
+    injection h with h; injection h with h1 h2
+    subst h2; simp [specImagesFrom]
+  | cons m ms ih =>
+    intro ms' acc acc' h
+    simp only [rewriteAll] at h
+    split at h
+    · cases h
+    · rename_i m1 acc1 h1
+      split at h
+      · cases h
+      · rename_i ms1 acc2 h2
+        injection h with h; injection h with h3 h4
+        subst h4
+        have e1 : acc1 = acc ++ specImagesFrom cfg acc.length m.images := by
+          unfold rewriteMsg at h1
+          split at h1
+          · cases h1
+          · rename_i st hst
+            injection h1 with h1; injection h1 with _ hacc
+            rw [← hacc]
+            exact foldImgs_spec cfg m.images _ st hst
+        have e2 := ih ms1 acc1 acc2 h2
+        have hlen : (specImagesFrom cfg acc.length m.images).length = m.images.length := by
+          generalize acc.length = k
+          induction m.images generalizing k with
+          | nil => rfl
+          | cons x xs ihx => simp [specImagesFrom, ihx]
+        rw [e2, e1, List.flatMap_cons, specImagesFrom_append]
+        simp [hlen]
+
+
 end OllamaVerif.Prompt
